@@ -177,9 +177,9 @@ class FastParetoOptimalAlgorithm(BaseParetoOptimalAlgorithm):
     if against.shape[1] <= 1:
       max_value = np.max(against)
       if strict:
-        return (points >= max_value).squeeze()
+        return (points >= max_value).reshape(-1)
       else:
-        return (points > max_value).squeeze()
+        return (points > max_value).reshape(-1)
 
     # Sort points from lowest to highest for first dimension and find split.
     ascending_indices = (points[:, 0]).argsort()
@@ -244,6 +244,27 @@ class FastParetoOptimalAlgorithm(BaseParetoOptimalAlgorithm):
     ascending_indices = (points[:, 0]).argsort()
     sorted_points = points[ascending_indices]
     split_index = round(len(points) / 2)
+
+    # Points tied in the first dimension must stay in the same half: otherwise
+    # a point in the lower half could dominate a point in the higher half.
+    first_dim = sorted_points[:, 0]
+    while (
+        split_index < len(points)
+        and first_dim[split_index] == first_dim[split_index - 1]
+    ):
+      split_index += 1
+    if split_index >= len(points):
+      split_index = round(len(points) / 2)
+      while (
+          split_index > 0
+          and first_dim[split_index] == first_dim[split_index - 1]
+      ):
+        split_index -= 1
+    if split_index <= 0:
+      # Hard to find a clean split. Resort to simple algorithm.
+      return np.array(
+          self._base_algorithm.is_pareto_optimal(points), dtype=bool
+      )
 
     # Recurse on both subarrays and check for cross domination.
     lower_array = sorted_points[:split_index]
